@@ -12,6 +12,7 @@ import (
 	"strings"
 	"sync"
 	"syscall"
+	"time"
 
 	"github.com/gr33nbl00d/caddy-revocation-validator/config"
 
@@ -208,6 +209,15 @@ func c12RestartChild(dir string, dieAt int, busy bool) int {
 		w := NewCW(CWOpt{Disk: true, SigMode: config.SignatureValidationModeVerify, Strict: true, Dir: dir, Net: other.Net})
 		w.Net.Down(urlA)
 		w.Net.Down(urlB)
+		// the restart follows the crash at once: by the validator's clock everything in the work_dir was last touched a
+		// second ago (the crashed process ran under the same virtual clock, the file system stamped with the real one)
+		justNow := vsched.Now().Add(-time.Second)
+		filepath.Walk(dir, func(p string, info os.FileInfo, err error) error {
+			if err == nil {
+				os.Chtimes(p, justNow, justNow)
+			}
+			return nil
+		})
 		var perr error
 		provision := func() { perr = w.Provision() }
 		if busy {
